@@ -8,7 +8,7 @@ From BV Require Import Base.Prelude Model.Block Model.ForkDB Model.Forkable Mode
   Proofs.Fk.StoreFacts Proofs.Fk.WalkFacts Proofs.Fk.LoopFacts Proofs.Fk.StoreChange Proofs.Fk.SwitchFacts
   Proofs.Fk.FixedLib Proofs.Fk.MovingLibStore Proofs.Fk.MovingLibWalk Proofs.Fk.MovingLibLoops
   Proofs.Fk.MovingLibInv Proofs.Fk.MovingLibFin Proofs.Fk.MovingLibDisc Proofs.Hub.StepFields Proofs.Hub.ConsFacts
-  Proofs.Hub.StepStore Proofs.Hub.Retention.
+  Proofs.Hub.StepStore Proofs.Hub.Retention Proofs.Hub.StepIrr.
 Local Open Scope N_scope.
 
 Lemma rev_inj {A} (l1 l2 : list A) : rev l1 = rev l2 -> l1 = l2.
@@ -24,6 +24,21 @@ Proof.
     + destruct (IH l' E1 e E2 H) as [(l2 & -> & ->)|(E1' & -> & ->)].
       * left. exists l2. auto.
       * right. exists E1'. auto.
+Qed.
+
+(* an Irreversible event of A ++ I ++ S (A New/Undo, S Stalled) lies in I *)
+Lemma irr_locate : forall (A I S l1 : list event) e l2, A ++ I ++ S = l1 ++ e :: l2 ->
+  Forall nu A -> Forall (fun x => estep x = SStalled) S -> estep e = SIrr ->
+  exists i1 i2, I = i1 ++ e :: i2.
+Proof.
+  intros A I S l1 e l2 H HA HS He.
+  destruct (app_split_cases _ _ _ _ _ H) as [(x2 & HAe & _)|(E1 & _ & H')].
+  - exfalso. rewrite Forall_forall in HA. assert (Hin : In e A) by (rewrite HAe; apply in_or_app; right; left; reflexivity).
+    destruct (HA e Hin) as [G|G]; rewrite He in G; discriminate.
+  - destruct (app_split_cases _ _ _ _ _ H') as [(x2 & HIe & _)|(E2 & _ & H'')].
+    + exists E1, x2. exact HIe.
+    + exfalso. rewrite Forall_forall in HS. assert (Hin : In e S) by (rewrite H''; apply in_or_app; right; left; reflexivity).
+      rewrite (HS e Hin) in He. discriminate.
 Qed.
 
 (* the block the final part ends with: the LIB block *)
@@ -147,6 +162,47 @@ Section Hub.
   Lemma mid_nil c0 a Fin1 s1 : MidFacts c0 [] a Fin1 s1.
   Proof. intros l1 e l2 H. destruct l1; discriminate. Qed.
 
+  (* the Irreversible events of a list evs, relative to the final part Fin1 known afterwards: the announced block ends a
+     beginning P of Fin1 (P = [] for the discovered LIB block when it was never delivered as New) *)
+  Definition IrrFacts (evs : list event) (a : block) (Fin1 : list block) : Prop :=
+    forall l1 e l2, evs = l1 ++ e :: l2 -> estep e = SIrr ->
+      exists P F0, Fin1 = P ++ F0 /\ libblk a P = eblk e /\ In (eblk e) U /\
+        ecblk e = bref (eblk e) /\ elib e = bref (eblk e) /\
+        linked (bid (eblk e)) F0 /\ Forall (fun x => In x U /\ bnum (eblk e) < bnum x) F0.
+
+  Lemma irr_extend evs a Fin1 F2 : IrrFacts evs a Fin1 ->
+    linked (bid (libblk a Fin1)) F2 -> Forall (fun x => In x U /\ bnum (libblk a Fin1) < bnum x) F2 ->
+    IrrFacts evs a (Fin1 ++ F2).
+  Proof.
+    intros HM Hl HF l1 e l2 Hs He. destruct (HM l1 e l2 Hs He) as (P & F0 & -> & HL & HU & Hcb & Hlb & Hl0 & HF0).
+    exists P, (F0 ++ F2). split; [rewrite app_assoc; reflexivity|]. split; [exact HL|]. split; [exact HU|].
+    split; [exact Hcb|]. split; [exact Hlb|]. rewrite <- HL in *. split.
+    - apply linked_app_iff. split; [exact Hl0|]. rewrite <- libblk_tip. exact Hl.
+    - apply Forall_app. split; [exact HF0|].
+      assert (Hm : bnum (libblk a P) <= bnum (libblk a (P ++ F0))).
+      { apply libblk_mono. eapply Forall_impl; [|exact HF0]. cbn beta. tauto. }
+      eapply Forall_impl; [|exact HF]. cbn beta. intros x [H1 H2]. split; [exact H1 | lia].
+  Qed.
+
+  Lemma irr_compose evs E' a Fin1 : IrrFacts evs a Fin1 -> IrrFacts E' a Fin1 -> IrrFacts (evs ++ E') a Fin1.
+  Proof.
+    intros H1 H2 l1 e l2 Hs He.
+    destruct (app_split_cases _ _ _ _ _ Hs) as [(l2' & Hev & _)|(E1' & -> & HE')].
+    - exact (H1 l1 e l2' Hev He).
+    - exact (H2 E1' e l2 HE' He).
+  Qed.
+
+  Lemma irr_nil a Fin1 : IrrFacts [] a Fin1.
+  Proof. intros l1 e l2 H. destruct l1; discriminate. Qed.
+
+  Lemma linked_gt : forall l y, In y U -> linked (bid y) l -> Forall (fun x => In x U) l -> Forall (fun x => bnum y < bnum x) l.
+  Proof.
+    induction l as [|z l IH]; intros y Hy Hl HU; [constructor|].
+    cbn [linked] in Hl. destruct Hl as [Hp Hl]. pose proof (Forall_inv HU) as Hz. cbn beta in Hz.
+    pose proof (U_up z y Hz Hy Hp) as Hyz.
+    constructor; [exact Hyz|]. eapply Forall_impl; [|exact (IH z Hz Hl (Forall_inv_tail HU))]. cbn beta. intros x Hx. lia.
+  Qed.
+
   (* ---------------------------------------------------------------- one ProcessBlock call after the discovery *)
 
   Lemma post_step a s Fin S c b : Post a s Fin S c -> In b U ->
@@ -156,7 +212,8 @@ Section Hub.
       linked (bid (libblk a Fin)) Fnew /\
       Forall (fun x => In x U /\ bnum (libblk a Fin) < bnum x) Fnew /\
       MidFacts c evs a (Fin ++ Fnew) s' /\
-      (forall B1, Ret B1 s -> Ret B1 s').
+      (forall B1, Ret B1 s -> Ret B1 s') /\
+      IrrFacts evs a (Fin ++ Fnew).
   Proof.
     intros [Ha HI Hc Hcl Hne Hx] Hb.
     destruct (inv_lib a s Fin S Ha HI) as (HLU & Hlib).
@@ -264,7 +321,30 @@ Section Hub.
     { constructor; try assumption; try reflexivity.
       - destruct (Hc2 eq_refl) as [H|(f & Hf & _)]; [exact H | discriminate].
       - apply Hx2. exact Hx. }
-    split; [exact Hfold|]. split; [exact HlF|]. split; [exact HFnU|]. split; [|exact Hpres].
+    split; [exact Hfold|]. split; [exact HlF|]. split; [exact HFnU|]. split; [|split; [exact Hpres|]].
+    2:{ (* the Irreversible events *)
+      intros l1 e l2 Hsplit HeI.
+      destruct (irr_locate _ _ _ _ _ _ Hsplit HnuUN HsS HeI) as (i1 & i2 & HevI).
+      assert (HFsplit : Fnew = map eblk i1 ++ eblk e :: map eblk i2).
+      { rewrite <- HmI, HevI, map_app. reflexivity. }
+      destruct (fk_step_irr cfg Hnofail Hnew Hincl s b Hhl) as (s4 & evs4 & r4 & Hrun4 & Hirf).
+      rewrite Hstep in Hrun4. injection Hrun4 as _ <- _.
+      assert (Hef : ecblk e = bref (eblk e) /\ elib e = bref (eblk e)).
+      { rewrite Forall_forall in Hirf. apply Hirf; [|exact HeI]. rewrite Hsplit. apply in_or_app. right. left. reflexivity. }
+      destruct Hef as [Hecb Helb].
+      rewrite HFsplit in HlF, HFnU.
+      assert (HeU : In (eblk e) U).
+      { apply Forall_app in HFnU as [_ G]. destruct (Forall_inv G) as [G1 _]. exact G1. }
+      exists (Fin ++ map eblk i1 ++ [eblk e]), (map eblk i2).
+      split; [rewrite HFsplit, <- !app_assoc; reflexivity|].
+      split; [unfold libblk; rewrite !app_assoc, rev_app_distr; reflexivity|].
+      split; [exact HeU|]. split; [exact Hecb|]. split; [exact Helb|].
+      apply linked_app_iff in HlF as [_ HlF]. cbn [linked] in HlF. destruct HlF as [_ HlF].
+      apply Forall_app in HFnU as [_ HFnU]. pose proof (Forall_inv_tail HFnU) as HF2.
+      split; [exact HlF|].
+      assert (HF2U : Forall (fun x => In x U) (map eblk i2)) by (eapply Forall_impl; [|exact HF2]; cbn beta; tauto).
+      pose proof (linked_gt _ _ HeU HlF HF2U) as Hgt.
+      apply Forall_forall. intros x Hxin. rewrite Forall_forall in HF2U, Hgt. split; [apply HF2U | apply Hgt]; exact Hxin. }
     (* the events one by one *)
     intros l1 e l2 Hsplit Hnu.
     destruct (nu_in_front _ _ _ _ _ Hsplit HqIS Hnu) as (l2' & HA & _).
@@ -365,11 +445,12 @@ Section Hub.
   Definition DiscOut2 (res : fstate * list event * result) : Prop :=
     exists a s' evs Fin S' c',
       res = (s', evs, ROk) /\ Post a s' Fin S' c' /\ cons_fold cons0 evs = Some c' /\ MidFacts cons0 evs a Fin s' /\
-      FinRooted a Fin.
+      FinRooted a Fin /\ IrrFacts evs a Fin.
 
   Lemma pii_ok2 b s2 : exists s' eI,
     process_initial_inclusive cfg b s2 = (s', [mkEv SNew b (bref b) (bref b) (cursor_lib s2) None 0 0; eI], true) /\
-    estep eI = SIrr /\ eblk eI = b /\ db s' = db s2 /\ last_sent s' = Some b /\ last_lib_seen s' = bref b.
+    estep eI = SIrr /\ eblk eI = b /\ db s' = db s2 /\ last_sent s' = Some b /\ last_lib_seen s' = bref b /\
+    ecblk eI = bref b /\ elib eI = bref b.
   Proof.
     unfold process_initial_inclusive. rewrite Hnew, (call_ok cfg Hnofail). cbv beta iota zeta.
     set (tiny := mkSeg (bid b) (bnum b) (mkEntry b false)).
@@ -380,8 +461,10 @@ Section Hub.
       as (s' & evI & Hrun & Hdb & Hls & Hlls & Hm & Hs).
     rewrite Hrun. cbv beta iota. rewrite Hirr in Hm. cbn [map sent eb tiny] in Hm.
     destruct evI as [|eI [|? ?]]; try discriminate. cbn [map] in Hm. injection Hm as HeI.
+    destruct (pis_irr cfg Hnofail [tiny] (bref b) s1') as (s5 & ev5 & ok5 & Hrun5 & Hf5).
+    rewrite Hrun in Hrun5. injection Hrun5 as _ <- _. destruct (Forall_inv Hf5) as [Hf1 Hf2]. rewrite HeI in Hf1, Hf2.
     exists s', eI. split; [reflexivity|]. split; [exact (Forall_inv Hs)|]. split; [exact HeI|].
-    split; [rewrite Hdb; reflexivity|]. split; [rewrite Hls; reflexivity|]. rewrite Hlls. reflexivity.
+    split; [rewrite Hdb; reflexivity|]. split; [rewrite Hls; reflexivity|]. split; [rewrite Hlls; reflexivity|]. auto.
   Qed.
 
   Lemma pre_cursor_lib s d2 : last_lib_seen s = ref_empty -> cursor_lib (with_db s d2) = libref d2.
@@ -397,14 +480,19 @@ Section Hub.
     pose proof (dbinv_found U cfg U_id U_uniq U_up s b en HP Hb Hf Hen) as Hd2. cbn [eb en] in Hd2.
     change (R b) with (bref b) in Hd2.
     set (d2 := move_lib (new_db (db s) b) (bref b)) in *. set (s2 := with_db s d2).
-    destruct (pii_ok2 b s2) as (s' & eI & Hrun & HsI & HbI & Hdb & Hls' & Hlls').
+    destruct (pii_ok2 b s2) as (s' & eI & Hrun & HsI & HbI & Hdb & Hls' & Hlls' & HcI & HlI).
     rewrite Hrun. cbv beta iota.
     assert (Hcl2 : cursor_lib s2 = bref b) by (apply pre_cursor_lib; exact Hlls).
     rewrite Hcl2.
     set (ev := mkEv SNew b (bref b) (bref b) (bref b) None 0 0).
     assert (Hdb' : db s' = d2) by (rewrite Hdb; reflexivity).
     exists b, s', [ev; eI], [b], [b], (mkCons [b] 1 true).
-    split; [reflexivity|]. split; [|split; [|split; [|right; exists []; split; [reflexivity | exact I]]]].
+    split; [reflexivity|]. split; [|split; [|split; [|split; [right; exists []; split; [reflexivity | exact I]|]]]].
+    4:{ intros l1 e l2 Hsp HeI'. destruct l1 as [|x1 l1]; cbn [app] in Hsp.
+        - injection Hsp as <- _. discriminate.
+        - injection Hsp as _ Hsp. destruct l1 as [|y1 l1]; cbn [app] in Hsp; [|injection Hsp as _ Hsp; destruct l1; discriminate].
+          injection Hsp as <- _. exists [b], []. split; [reflexivity|]. cbn [libblk rev app]. rewrite HbI.
+          split; [reflexivity|]. split; [exact Hb|]. split; [exact HcI|]. split; [exact HlI|]. split; [exact I | constructor]. }
     - constructor.
       + exact Hb.
       + constructor; rewrite ?Hdb'.
@@ -540,7 +628,22 @@ Section Hub.
     { intros x Hx. apply in_map_iff in Hx as (e0 & <- & He0). apply in_map. eapply chain_in; [exact Hc2 | exact He0]. }
     assert (HLB0 : In (eb a) B0) by (apply in_map; exact Ha).
     exists (eb a), s', (evRN ++ [eI]), [], S3, (mkCons S3 0 true).
-    split; [reflexivity|]. split; [|split; [|split; [|left; exact I]]].
+    split; [reflexivity|]. split; [|split; [|split; [|split; [left; exact I|]]]].
+    4:{ intros k1 e k2 Hsp HeI'.
+        destruct (app_split_cases _ _ _ _ _ Hsp) as [(x2 & HRe & _)|(E1 & _ & Hlast)].
+        - exfalso. rewrite Forall_forall in HsRN. rewrite (HsRN e) in HeI'; [discriminate|].
+          rewrite HRe. apply in_or_app. right. left. reflexivity.
+        - destruct E1 as [|z E1]; cbn [app] in Hlast; [|injection Hlast as _ Hlast; destruct E1; discriminate].
+          injection Hlast as <- _.
+          destruct (process_tail_irr cfg Hnofail Hnew s2 b [] [] None (map seg_of (B' ++ [en])) (Some (seg_of a)) Hlne)
+            as (s5 & evs5 & r5 & Hrun5 & Hirf).
+          rewrite Hrun, Hlt in Hrun5. injection Hrun5 as _ <- _.
+          assert (Hef : ecblk eI = bref (eblk eI) /\ elib eI = bref (eblk eI)).
+          { rewrite Forall_forall in Hirf. apply Hirf; [apply in_or_app; right; left; reflexivity | exact HsI1]. }
+          destruct Hef as [Hecb Helb].
+          exists [], []. split; [reflexivity|]. cbn [libblk rev]. rewrite HeI.
+          split; [reflexivity|]. split; [exact HaU|]. rewrite <- HeI. split; [exact Hecb|]. split; [exact Helb|].
+          split; [exact I | constructor]. }
     - constructor.
       + exact HaU.
       + exact HI'.
